@@ -158,7 +158,7 @@ package secec
 //@ func hashToScalar
 //@   props C07 C08 C11
 //@   split case len(hash) >= 32
-//@   ensures len(hash) < 32 ==> result0 == nil && result1 != nil
+//@   ensures len(hash) < 32 ==> result0 == nil && errIs(result1, errInvalidDigest)
 //@   ensures len(hash) >= 32 ==> result1 == nil && val(result0) == fn(os2ip(hash[0:32]))
 //@   fresh result0
 //@
@@ -199,3 +199,81 @@ package secec
 //@   ensures (!isnil(opts) && opts.Encoding == 1) ==> (result <==> (len(digest) == hashsize(opts.Hash) && len(sig) == 64 && os2ip(sig[0:32]) >= 1 && os2ip(sig[0:32]) < N && os2ip(sig[32:64]) >= 1 && os2ip(sig[32:64]) < N && (!opts.RejectMalleable || os2ip(sig[32:64]) <= HALFN) && len(digest) >= 32 && ecdsa_ok(fn(os2ip(digest[0:32])), fn(os2ip(sig[0:32])), fn(os2ip(sig[32:64])), abs(k.point))))
 //@   ensures (!isnil(opts) && opts.Encoding == 2) ==> (result <==> (len(digest) == hashsize(opts.Hash) && len(sig) == 65 && os2ip(sig[0:32]) >= 1 && os2ip(sig[0:32]) < N && os2ip(sig[32:64]) >= 1 && os2ip(sig[32:64]) < N && (!opts.RejectMalleable || os2ip(sig[32:64]) <= HALFN) && len(digest) >= 32 && sig[64] < 4 && recx(fn(os2ip(sig[0:32])), sig[64]) < P && issq(pow(atom(fp(recx(fn(os2ip(sig[0:32])), sig[64]))), 3) + 7) && ecdsa_recQ(fn(os2ip(digest[0:32])), fn(os2ip(sig[0:32])), fn(os2ip(sig[32:64])), ptxy(atom(fp(recx(fn(os2ip(sig[0:32])), sig[64]))), sig[64] % 2)) != O && lift(affx(ecdsa_recQ(fn(os2ip(digest[0:32])), fn(os2ip(sig[0:32])), fn(os2ip(sig[32:64])), ptxy(atom(fp(recx(fn(os2ip(sig[0:32])), sig[64]))), sig[64] % 2)))) == lift(affx(abs(k.point))) && lift(affy(ecdsa_recQ(fn(os2ip(digest[0:32])), fn(os2ip(sig[0:32])), fn(os2ip(sig[32:64])), ptxy(atom(fp(recx(fn(os2ip(sig[0:32])), sig[64]))), sig[64] % 2)))) == lift(affy(abs(k.point)))))
 //@   ensures (!isnil(opts) && opts.Encoding != 0 && opts.Encoding != 1 && opts.Encoding != 2) ==> !result
+//@
+//@ func sampleRandomScalar
+//@   props C09 C08
+//@   requires !isnil(rand)
+//@   split case result1 == nil
+//@   ensures !errIs(result1, errSigCheckFailed)
+//@   loop 0 invariant 0 <= i && i <= 8
+//@   loop 0 modifies tmp, s.m
+//@   ensures result1 == nil ==> val(result0) != 0
+//@   ensures result1 != nil ==> result0 == nil
+//@   fresh result0
+//@
+//@ func newDrbgRFC6979
+//@   props C09
+//@   ensures !isnil(result)
+//@
+//@ func mitigateDebianAndSony
+//@   props C09 C08
+//@   split case result1 == nil
+//@   ensures !errIs(result1, errSigCheckFailed)
+//@   ensures result1 == nil ==> !isnil(result0)
+//@   ensures result1 != nil ==> isnil(result0)
+//@
+//@ func sign
+//@   props C08
+//@   requires !isnil(d)
+//@   split case result3 == nil
+//@   loop 0 invariant true
+//@   assert sdef@recoveryID abstract(s): val(s) != 0 && rewrite(fn(os2ip(hBytes[0:32])), val(s)*val(k) - val(r)*val(d.scalar))
+//@   ensures len(hBytes) < 32 ==> result3 != nil
+//@   ensures result3 == nil ==> len(hBytes) >= 32 && sig_lowS(val(result0), val(result1))
+//@   ensures result3 == nil ==> ecdsa_ok(fn(os2ip(hBytes[0:32])), val(result0), val(result1), smul(val(d.scalar), G))
+//@   ensures result3 == nil ==> sig_recovers(fn(os2ip(hBytes[0:32])), val(result0), val(result1), result2, smul(val(d.scalar), G))
+//@   ensures result3 != nil ==> result0 == nil && result1 == nil
+//@   ensures !errIs(result3, errSigCheckFailed)
+//@   using gen_not_identity()
+//@   apply knz@R: smul_nonzero(val(k), G)
+//@   apply knz2@R: smul_nonzero(0 - val(k), G)
+//@   apply xneg@R: affx_neg(smul(val(k), G))
+//@   apply rpt@R: ptxy_point(smul(val(k), G))
+//@   fork par@rYIsOdd: rYIsOdd == 0
+//@   fork red@didReduce: didReduce == 0
+//@   fork neg@negateS: negateS == 0
+//@   assert recpt@return: rewrite(ptxy(atom(fp(recx(val(r), recoveryID))), recoveryID % 2), smul(ite(negateS == 0, val(k), 0 - val(k)), G))
+//@   fresh result0, result1
+//@
+//@ func (*PrivateKey).SignRaw
+//@   props C08
+//@   split case result3 == nil
+//@   ensures len(digest) < 32 ==> result3 != nil
+//@   ensures result3 == nil ==> len(digest) >= 32 && sig_lowS(val(result0), val(result1))
+//@   ensures result3 == nil ==> ecdsa_ok(fn(os2ip(digest[0:32])), val(result0), val(result1), smul(val(k.scalar), G))
+//@   ensures result3 == nil ==> sig_recovers(fn(os2ip(digest[0:32])), val(result0), val(result1), result2, smul(val(k.scalar), G))
+//@   ensures result3 != nil ==> result0 == nil && result1 == nil
+//@   ensures !errIs(result3, errSigCheckFailed)
+//@   fresh result0, result1
+//@
+//@ func BuildASN1Signature
+//@   props C08 C12
+//@   trusted math/big and the cryptobyte.Builder continuation API are outside the engine's subset; the contract is SEC 1 C.8 / X.690 DER: SEQUENCE of the two INTEGERs (minimal two's-complement magnitude)
+//@   ensures dersig(result) && dersig_r(result) == lift(val(r)) && dersig_s(result) == lift(val(s))
+//@   fresh result
+//@
+//@ func (*PrivateKey).Sign
+//@   props C08
+//@   split dyn opts ECDSAOptions
+//@   split case result1 == nil
+//@   requires isdyn(opts, ECDSAOptions) ==> (opts.(*ECDSAOptions).Hash >= 0 && opts.(*ECDSAOptions).Hash <= 19)
+//@   requires (!isnil(opts) && !isdyn(opts, ECDSAOptions)) ==> (foreign(opts, HashFunc) >= 1 && foreign(opts, HashFunc) <= 19)
+//@   ensures (isnil(opts) || !isdyn(opts, ECDSAOptions) || opts.(*ECDSAOptions).Encoding == 0) ==> (result1 == nil ==> (len(digest) >= 32 && dersig(result0) && dersig_s(result0) <= HALFN && ecdsa_ok(fn(os2ip(digest[0:32])), fn(dersig_r(result0)), fn(dersig_s(result0)), smul(val(k.scalar), G))))
+//@   ensures (isdyn(opts, ECDSAOptions) && opts.(*ECDSAOptions).Encoding == 1) ==> (result1 == nil ==> (len(digest) >= 32 && len(result0) == 64 && os2ip(result0[0:32]) >= 1 && os2ip(result0[0:32]) < N && os2ip(result0[32:64]) >= 1 && os2ip(result0[32:64]) <= HALFN && ecdsa_ok(fn(os2ip(digest[0:32])), fn(os2ip(result0[0:32])), fn(os2ip(result0[32:64])), smul(val(k.scalar), G))))
+//@   ensures (isdyn(opts, ECDSAOptions) && opts.(*ECDSAOptions).Encoding == 2) ==> (result1 == nil ==> (len(digest) >= 32 && len(result0) == 65 && os2ip(result0[0:32]) >= 1 && os2ip(result0[0:32]) < N && os2ip(result0[32:64]) >= 1 && os2ip(result0[32:64]) <= HALFN && ecdsa_ok(fn(os2ip(digest[0:32])), fn(os2ip(result0[0:32])), fn(os2ip(result0[32:64])), smul(val(k.scalar), G)) && sig_recovers(fn(os2ip(digest[0:32])), fn(os2ip(result0[0:32])), fn(os2ip(result0[32:64])), result0[64], smul(val(k.scalar), G))))
+//@   ensures (isdyn(opts, ECDSAOptions) && opts.(*ECDSAOptions).Encoding != 0 && opts.(*ECDSAOptions).Encoding != 1 && opts.(*ECDSAOptions).Encoding != 2) ==> result1 != nil
+//@   ensures (isdyn(opts, ECDSAOptions) && len(digest) != hashsize(opts.(*ECDSAOptions).Hash)) ==> result1 != nil
+//@   ensures (!isnil(opts) && !isdyn(opts, ECDSAOptions) && len(digest) != hashsize(old(foreign(opts, HashFunc)))) ==> result1 != nil
+//@   ensures len(digest) < 32 ==> result1 != nil
+//@   ensures result1 != nil ==> len(result0) == 0
+//@   ensures !errIs(result1, errSigCheckFailed)
